@@ -444,6 +444,8 @@ func init() {
 					c := extFieldCase(k)
 					c.Args = append(c.Args, "--extra-imports")
 					return c
+				} else if k -= 8; k < 6 {
+					return ecmaPatternCase(k)
 				}
 				return nil
 			}
@@ -2083,6 +2085,7 @@ func strataForC01(ctx *Ctx) []*sem.Case {
 	add(9, nestedSameDefCase)
 	add(6, propsNextToAllOfCase)
 	add(6, aliasDefinitionCase)
+	add(6, ecmaPatternCase)
 	add(12, objectDefaultCase)
 	add(12, nullableDefCase)
 	add(16, nestedOverlapCase)
@@ -2961,6 +2964,28 @@ func aliasDefinitionCase(i int) *sem.Case {
 		if root.Prop("team") != nil {
 			c.Docs = append(c.Docs, docgen.Doc{V: jsonx.Obj{{K: "team", V: jsonx.Obj{{K: "boss", V: d.v}}}}, Class: "required", Label: "alias-definition", Stated: d.st})
 		}
+	}
+	return c
+}
+
+// ecmaPatternCase: patterns that ECMA-262 accepts and Go's RE2 does not (look-ahead, back-reference, \u escape, a
+// repeat count above 1000) on required / optional / nullable / definition strings: whatever the generated check
+// makes of such a pattern, both decoding paths make the same of it (relational documents: the model has no opinion).
+func ecmaPatternCase(i int) *sem.Case {
+	pats := []string{"^(?!test)[a-z]+$", "^(a|b)\\1$", "^\\u0041+$", "^[a-z]{1,1001}$", "^(?<name>[a-z]+)$", "(?=.*[0-9])^.+$"}
+	p := pats[i%len(pats)]
+	mk := func() *sg.Schema { return &sg.Schema{Types: []string{"string"}, Pattern: p, MaxLen: 16} }
+	def := mk()
+	nul := mk()
+	nul.Types = []string{"string", "null"}
+	root := &sg.Schema{Types: []string{"object"}, Defs: []sg.Prop{{Name: "Login", S: def}}, Required: []string{"login"},
+		Props: []sg.Prop{{Name: "login", S: mk()}, {Name: "other", S: mk()}, {Name: "nul", S: nul}, {Name: "viaDef", S: &sg.Schema{Ref: "#/$defs/Login", Target: def}}, {Name: "displayName", S: &sg.Schema{Types: []string{"string"}}}}}
+	c := &sem.Case{Root: root, Sig: fmt.Sprintf("ecma-pattern/%d", i%len(pats)), NoAuto: true, Args: []string{"--extra-imports"}}
+	for _, d := range []jsonx.Obj{
+		{{K: "login", V: "alice"}, {K: "displayName", V: "Alice"}}, {{K: "login", V: "alice"}}, {{K: "login", V: "tester"}}, {{K: "login", V: "aa"}}, {{K: "login", V: "AAA"}}, {{K: "login", V: "abcdefghijklmnopqrstuvwxyz"}},
+		{{K: "displayName", V: "x"}}, {{K: "login", V: "alice"}, {K: "other", V: "bob"}, {K: "nul", V: nil}, {K: "viaDef", V: "carol"}}, {{K: "login", V: "alice"}, {K: "nul", V: "x1"}}, {{K: "login", V: "a1"}, {K: "viaDef", V: "b2"}},
+	} {
+		c.Docs = append(c.Docs, docgen.Doc{V: d, Class: "formatparity", Label: "ecma-pattern"})
 	}
 	return c
 }
